@@ -651,6 +651,7 @@ pub fn gen_run(rng: &mut Rng, n: usize, k: &RunKnobs) -> RunSpec {
         // tokio's cooperative budget only bites when many operations happen in one
         // poll: mostly wide graphs
         coop: coop_flag,
+        signals_anytime: signals > 0 && api.has_limit() && rng.chance(1, 3),
         leave_refs: false,
         carried_slots: 0,
         coop_burn: coop_burn_v,
